@@ -26,7 +26,7 @@ func TestMain(m *testing.M) {
 		Property: "C04", Level: "fault_enumeration",
 		Rule: "rapid draws a multi-round history (1..6 rounds; per round 1..4 transaction tries with 1..6 operations each, merged in order or discarded, including identical re-creation of deleted content within and across rounds); each round is executed as the chain does (block trie over LevelNodeDB(memory, persistent store), SaveChanges without deletes, RecordDeadNodes). After every save every round saved so far is re-read from the store alone (new PNodeDB object, fresh trie and cache, plus the harness's raw-byte walker) and must equal its model. " +
 			"Crash points are ENUMERATED: for each round and each prefix length n of the atomic writes its save stream issued, the round is re-run from a copy of the pre-round store with every write from the n-th on refused; after 'restart' all earlier roots must still be readable, and re-executing and re-saving the round must give the same root and complete content; additionally each single write is made to fail alone (process survives): a save that then reports success must have saved a complete state. " +
-			"One evaluation = one crash-free history or one (history, round, prefix) crash run. Non-trivial = history with >=2 rounds, a round with both a merged and a discarded transaction, and identical re-creation of deleted content; distinct = distinct (history, round, prefix).",
+			"One evaluation = one crash-free history or one (history, round, prefix) crash run. Before every second save a cold reader (CloneMPT) iterates the block state. Dedicated cases: rounds of more than 256 changed nodes with every crash prefix, and rounds built to exactly 255, 256, 257 and 512 changed nodes. Non-trivial = history with >=2 rounds, a round with both a merged and a discarded transaction, and identical re-creation of deleted content; distinct = distinct (history, round, prefix).",
 		Assumptions: []string{"the persistent store is the in-memory grocksdb stand-in: point writes and batch writes are atomic and totally ordered; a crash refuses the n-th and all later writes; SetSync(false) durability loss on machine crash is not modelled"},
 	})
 	ev.Main(m)
